@@ -36,7 +36,10 @@ def fd_gradient(L, x0_used, free_names, free_x0, h=1e-6):
     return g
 
 
-def grad_unit(kind, sel, tp, n, weighted=False, spread_form="scalar", entry="sensitivity", ts_sel=None, full_output=False, time_kind="sym", y_kind="sym"):
+def grad_unit(kind, sel, tp, n, weighted=False, spread_form="scalar", entry="sensitivity", ts_sel=None, full_output=False, time_kind="sym", y_kind="sym", pre_iv=False):
+    """pre_iv: the object has target_state and an initial-value evaluation (costIV at other parameter values and other
+    initial values) comes first; that call moves the object's initial state, and the fixed-initial-value gradient that
+    follows must be the derivative of the cost the object computes NOW (from the moved state)"""
     iv = entry == "sensitivityIV"
 
     def h(c):
@@ -52,10 +55,17 @@ def grad_unit(kind, sel, tp, n, weighted=False, spread_form="scalar", entry="sen
                         x0_used[STATES.index(s)] = v
                     arg = arr(c, list(L.theta) + L.x0_free)
                     out = L.obj.sensitivityIV(arg, full_output=full_output)
-                elif entry == "gradient":
-                    out = L.obj.gradient(L.theta_arg, full_output=full_output)
                 else:
-                    out = L.obj.sensitivity(L.theta_arg, full_output=full_output)
+                    if pre_iv:
+                        moved = [c.real("pre_iv_%s" % s, lo=1, hi=10) for s in ts_sel]
+                        th_pre = [c.real("pre_th_%d" % k_, lo=0.1, hi=3) for k_ in range(len(L.theta))]
+                        L.obj.costIV(arr(c, th_pre + moved))
+                        for s, v in zip(ts_sel, moved):
+                            x0_used[STATES.index(s)] = v
+                    if entry == "gradient":
+                        out = L.obj.gradient(L.theta_arg, full_output=full_output)
+                    else:
+                        out = L.obj.sensitivity(L.theta_arg, full_output=full_output)
                 g = out[0] if full_output else out
                 integ, fl = last_flow(book)
                 if not full_output:
@@ -90,10 +100,17 @@ def grad_unit(kind, sel, tp, n, weighted=False, spread_form="scalar", entry="sen
                 for s, v in zip(free_x0, L.x0_free):
                     x0_used[STATES.index(s)] = v
                 out = L.obj.sensitivityIV(np.array(list(L.theta) + L.x0_free), full_output=full_output)
-            elif entry == "gradient":
-                out = L.obj.gradient(L.theta_arg, full_output=full_output)
             else:
-                out = L.obj.sensitivity(L.theta_arg, full_output=full_output)
+                if pre_iv:
+                    moved = [c.real("pre_iv_%s" % s, lo=1, hi=10) for s in ts_sel]
+                    th_pre = [c.real("pre_th_%d" % k_, lo=0.1, hi=3) for k_ in range(len(L.theta))]
+                    L.obj.costIV(np.array([float(v) for v in th_pre + moved]))
+                    for s, v in zip(ts_sel, moved):
+                        x0_used[STATES.index(s)] = float(v)
+                if entry == "gradient":
+                    out = L.obj.gradient(L.theta_arg, full_output=full_output)
+                else:
+                    out = L.obj.sensitivity(L.theta_arg, full_output=full_output)
             g = out[0] if full_output else out
             ref = fd_gradient(L, x0_used, free_names, free_x0)
         c.reachable("gradient evaluated")
@@ -106,7 +123,7 @@ def grad_unit(kind, sel, tp, n, weighted=False, spread_form="scalar", entry="sen
                 c.prove(near(g[k_], ref[k_], c, tol=2e-4), "gradient[%d] == d cost / d %s (free variables in the order supplied)" % (k_, nm))
     return Unit("C07.%s[%s,states=%s,target=%s,n=%d,w=%s,spread=%s,ts=%s,full=%s%s]" % (
         entry, kind, "+".join(sel), "all" if tp is None else "+".join(tp), n, weighted, spread_form, ts_sel, full_output,
-        ("" if time_kind == "sym" else ",times=" + time_kind) + ("" if y_kind == "sym" else ",y=" + y_kind)), h,
+        ("" if time_kind == "sym" else ",times=" + time_kind) + ("" if y_kind == "sym" else ",y=" + y_kind) + (",after_costIV" if pre_iv else "")), h,
         bounds={"model": "S,J,R / beta,gamma", "times": n, "time_inputs": "symbolic reals" if time_kind == "sym" else "concrete %s 1..n with t0=0.5" % time_kind, "observed_states": list(sel), "target_param": tp, "target_state": ts_sel,
                 "weights": "symbolic" if weighted else "unit", "spread": spread_form},
         program={"loss": kind, "sel": list(sel), "tp": tp, "ts": ts_sel}, tol=2e-4, max_paths=400)
@@ -164,6 +181,9 @@ class C07(Check):
         us.append(grad_unit("Square", ("R", "J"), None, 3, weighted="per_state"))
         us.append(grad_unit("Normal", ("J", "S"), ("gamma", "beta"), 3, weighted="per_state", spread_form="per_state"))
         us.append(grad_unit("Square", ("S", "R"), None, 3, weighted="scalar", entry="sensitivityIV", ts_sel=("J",)))
+        # call histories on one object: an initial-value evaluation first (it moves the object's initial state)
+        us.append(grad_unit("Square", ("J", "R"), ("beta", "gamma"), 2, entry="gradient", ts_sel=("J",), pre_iv=True))
+        us.append(grad_unit("Normal", ("S",), ("gamma",), 2, entry="sensitivity", ts_sel=("R", "S"), pre_iv=True))
         if tier != "quick":
             for kind in ("Normal", "Poisson", "Gamma", "NegBinom"):
                 for sel in [("J", "S"), ("R", "S", "J")]:
